@@ -331,3 +331,8 @@ def snapshot(root):
             with open(p, 'rb') as f:
                 out[p] = f.read()
     return out
+
+
+def parent_post(tier, seed, merged):
+    # exhaustive refers to the flag-subset family (a) only; the other families are sampled
+    return {'exhaustive': tier == 'thorough', 'exhaustive_scope': 'the flag-subset family (a)'}
